@@ -441,6 +441,10 @@ pub struct IdPlan {
     /// literal; 3.. select long strides (see [`gap_count`]) so that vertex names lie far apart
     /// or coincide modulo a power of two
     pub gaps: Vec<u8>,
+    /// 0 = edges inserted in model order; otherwise a key that shuffles the insertion order and
+    /// the orientation of every edge (adjacency-list order is not part of any contract)
+    #[serde(default)]
+    pub edge_order: u64,
 }
 
 pub fn gap_count(code: u8) -> usize {
@@ -507,8 +511,18 @@ pub fn build<G: GraphLike>(d: &Diag, plan: &IdPlan) -> (G, Vec<V>) {
     for v in dummies {
         g.remove_vertex(v);
     }
-    for &(a, b, h) in &d.edges {
-        g.add_edge_with_type(ids[a], ids[b], if h { EType::H } else { EType::N });
+    let mut eorder: Vec<usize> = (0..d.edges.len()).collect();
+    if plan.edge_order != 0 {
+        eorder.sort_by_key(|&i| crate::engine::mix(plan.edge_order, i as u64));
+    }
+    for i in eorder {
+        let (a, b, h) = d.edges[i];
+        let et = if h { EType::H } else { EType::N };
+        if plan.edge_order != 0 && crate::engine::mix(plan.edge_order ^ 0xe0, i as u64) & 1 == 1 {
+            g.add_edge_with_type(ids[b], ids[a], et);
+        } else {
+            g.add_edge_with_type(ids[a], ids[b], et);
+        }
     }
     g.set_inputs(d.inputs.iter().map(|&i| ids[i]).collect());
     g.set_outputs(d.outputs.iter().map(|&i| ids[i]).collect());
